@@ -62,9 +62,11 @@ package mustache
 //@     invariant -1 <= rangeindex && rangeindex < len(tokens)
 //@     decreases len(tokens) - rangeindex
 //
+// "every variable map": the map given is the map rendered, also an empty one; only no map at all means the template's defaults
 //@ func (c *MustacheTemplate) EvaluateWithVariables
 //@   tags C03, C19
 //@   requires c != nil && c.parser != nil && (forall i int :: 0 <= i && i < len(c.parser.resultTokens) ==> c.parser.resultTokens[i] != nil && okNode(c.parser.resultTokens[i]))
+//@   callsite[C10] evaluateTokens requires tokens == c.parser.resultTokens && variables == (caller_variables == nil ? c.defaultVariables : caller_variables)
 //@   assigns nothing
 //@   nopanic
 //@ func (c *MustacheTemplate) Evaluate
